@@ -614,6 +614,12 @@ def _check_run(ctx, mod, cls, Elem):
                     isinstance(x, ast.Call) and isinstance(x.func, ast.Attribute) and x.func.attr == "sort" and isinstance(x.func.value, ast.Name)
                     and x.func.value.id == nm and not x.args and not x.keywords))
             wit = g.path(nodes, [g.exit] + pops + loop_tests, avoid=hs, strict=True, edge_ok=lambda x, y, l: l != "exc")
+            if wit is not None and isinstance(a.node.value, ast.Name):
+                # ... or the new list was heapified before it became the heap: between its construction and the re-bind
+                binds = g.ids(lambda n: n.kind == "stmt" and isinstance(n.ast, (ast.Assign, ast.AnnAssign)) and any(
+                    isinstance(t, ast.Name) and t.id == nm for t in (n.ast.targets if isinstance(n.ast, ast.Assign) else [n.ast.target])))
+                if binds and hs and g.path(binds, nodes, avoid=hs, strict=True) is None:
+                    wit = None
             ctx.check(bool(hs) and wit is None, "heap/compaction", c,
                       "the filtered list is not heapified before it is used as a heap again: calls run out of time order", witness=g.describe(wit))
             live = [Elem(time=t, delayed_time=0.0, cancelled=cn) for t, cn in ((1, 0), (2, 1), (3, 1), (4, 0), (5, 1), (6, 0))]
@@ -1137,4 +1143,20 @@ MUTANTS += [
            "        if not self._newTimedCalls:\n            return\n\n        staged = self._newTimedCalls\n        alive = [c for c in staged if c.cancelled]\n"
            "        self._cancellations -= len(staged) - len(alive)\n        for c in alive:\n            c.activate_delay()\n            heappush(self._pendingTimedCalls, c)\n"
            "        self._newTimedCalls = []\n", expect_rule="model/insert-moves-live-calls"),
+]
+
+_GEN_DUE = ('    def _dueNow(self, now):\n        while self._pendingTimedCalls and (self._pendingTimedCalls[0].time <= now):\n            item = heappop(self._pendingTimedCalls)\n'
+            '            if item.cancelled:\n                self._cancellations -= 1\n                continue\n            if item.delayed_time > 0.0:\n'
+            '                item.activate_delay()\n                heappush(self._pendingTimedCalls, item)\n                continue\n            yield item\n\n')
+_COMPACT_BEFORE = ('        if self._cancellations > max(50, len(self._pendingTimedCalls) >> 1):\n            self._cancellations = 0\n'
+                   '            kept = [x for x in self._pendingTimedCalls if not x.cancelled]\n            heapify(kept)\n            self._pendingTimedCalls = kept\n')
+SILENT += [
+    # the run loop consumes a private generator of due calls; compaction heapifies the new list before it becomes the heap
+    Silent("generator-of-due-timed-calls", BASE, "        now = self.seconds()\n" + _RUN_LOOP, "        for call in self._dueNow(self.seconds()):\n",
+           more=[(BASE, _CANCEL_DEF, _GEN_DUE + _CANCEL_DEF), (BASE, _COMPACT, _COMPACT_BEFORE)]),
+]
+MUTANTS += [
+    Mutant("generator-yields-cancelled-calls", BASE, "        now = self.seconds()\n" + _RUN_LOOP, "        for call in self._dueNow(self.seconds()):\n", expect_rule="run/skips-cancelled",
+           more=[(BASE, _CANCEL_DEF, _GEN_DUE.replace("            if item.cancelled:\n                self._cancellations -= 1\n                continue\n", "") + _CANCEL_DEF)]),
+    Mutant("new-heap-never-heapified", BASE, _COMPACT, _COMPACT_BEFORE.replace("            heapify(kept)\n", ""), expect_rule="heap/compaction"),
 ]
